@@ -14,6 +14,7 @@
 using namespace jsoncons;
 using namespace vf;
 static Harness H;
+static std::string g_desc;   // what the case in flight is about (sampled into the evidence)
 using Bytes = std::vector<uint8_t>;
 typedef __int128 i128;
 typedef unsigned __int128 u128;
@@ -122,7 +123,7 @@ static const char* FMT[] = {"cbor", "msgpack", "ubjson", "bson"};
 static void ints(Rng& r) {
     u64 n = gen_boundary_u64(r);
     std::string pos = u128s(n);
-    H.note_distinct(n);
+    H.note_distinct(n); g_desc = "integer " + pos;
     {   // positive literal
         json j = json::parse(pos); H.count_("int.literal");
         if (!j.is_number() || j.is_double() || !j.is<uint64_t>() || j.as<uint64_t>() != n) H.violation("int/parse/uint64-literal-wrong", J().str("text", pos).str("got", j.to_string()).done());
@@ -179,7 +180,7 @@ static void bigliterals(Rng& r) {
     bool native = b.neg ? Big::cmp(b, Big::negate(Big::shl(Big::from_u64(1), 63))) >= 0 : b.m.size() <= 2;
     if (native) { H.count_("bigliteral.skipped_native_range"); return; }
     std::string text = b.dec();
-    H.note_distinct(hash_str(text)); H.count_("bigliteral.lossless_on");
+    H.note_distinct(hash_str(text)); H.count_("bigliteral.lossless_on"); g_desc = "big literal " + text.substr(0, 80);
     {   // lossless (default): digits are kept
         json j = json::parse(text);
         if (!j.is_string() || j.tag() != semantic_tag::bigint || j.as<std::string>() != text) H.violation("bigliteral/lossless-on/not-kept-digit-for-digit", J().str("text", text).str("got", describe(j)).done());
@@ -252,7 +253,7 @@ static void doubles_one(double d, Rng& r, bool light) {
     // binary formats keep the bits
     for (int f = 0; f < 4; ++f) { json back; bin_roundtrip(json(d), f, back); H.count_("double.binary_roundtrip"); if (!back.is_double() || double_to_bits(back.as<double>()) != double_to_bits(d)) H.violation(std::string("double/binary/") + FMT[f] + "/bits-changed", J().str("bits", bitsx(d)).str("got", describe(back)).done()); }
 }
-static void doubles(Rng& r) { double d = gen_hard_double(r); H.note_distinct(double_to_bits(d)); doubles_one(d, r, false); }
+static void doubles(Rng& r) { double d = gen_hard_double(r); H.note_distinct(double_to_bits(d)); g_desc = "double " + bitsx(d) + " " + dstr(d); doubles_one(d, r, false); }
 
 // ---------------------------------------------------------------- decimal literals -> correctly rounded double
 // exact decimal expansion of m * 2^e (m odd or even, e any) as digits and decimal exponent: value = digits * 10^dexp
@@ -294,7 +295,7 @@ static void dec_literals(Rng& r) {
     bool has_frac = text.find_first_of(".eE") != std::string::npos;
     bool rerr; double want = c_strtod(text, &rerr);
     bool all_zero = text.find_first_of("123456789") == std::string::npos || text.find_first_of("123456789") > text.find_first_of("eE");
-    H.note_distinct(hash_str(text));
+    H.note_distinct(hash_str(text)); g_desc = "literal (" + kind + ") " + text.substr(0, 80);
     auto judge_one = [&](const char* cfg, bool parsed, const std::string& what, bool is_double, double dv, bool is_bigdec_text_kept, const std::string& got, bool lossless_bignum) {
         if (!parsed) { H.violation(std::string("literal/") + cfg + "/valid-number-rejected", J().str("text", text).str("what", what).done()); return; }
         if (!has_frac) return;   // integer literals are judged by ints/bigliterals
@@ -338,7 +339,7 @@ static void bigints(Rng& r) {
     unsigned maxl = r.chance(1, 8) ? 130 : 12;
     Big A = gen_big(r, maxl), B = gen_big(r, r.coin() ? maxl : 3);
     std::string as = A.dec(), bsx = B.dec();
-    H.note_distinct(hash_str(as + "|" + bsx));
+    H.note_distinct(hash_str(as + "|" + bsx)); g_desc = "bigint a=" + as.substr(0, 60) + " b=" + bsx.substr(0, 40);
     bigint a(as.c_str()), b(bsx.c_str());
     auto expect = [&](const char* op, const bigint& got, const Big& want) {
         H.count_(std::string("bigint.") + op);
@@ -435,9 +436,9 @@ static void f32_block(u64 block, u64 stride) {
 int main(int argc, char** argv) {
     H.parse(argc, argv);
     std::string mode = H.opt("mode", "gen");
-    if (mode == "f16") return H.run([&](long long c) { if (c == 0) f16_all(); });
+    if (mode == "f16") return H.run([&](long long c) { if (c == 0) { f16_all(); H.sample(J().str("case", "all 65536 half-precision bit patterns").done()); } });
     if (mode == "f32") { bool exhaustive = H.opt_int("exhaustive", 0) != 0; u64 stride = (u64)H.opt_int("stride", 1);
-        return H.run([&](long long c) { Rng r = H.case_rng(c); u64 block = exhaustive ? (u64)c : r.below(65536); set_flight_desc("f32 block " + std::to_string(block)); f32_block(block, stride); }); }
+        return H.run([&](long long c) { Rng r = H.case_rng(c); u64 block = exhaustive ? (u64)c : r.below(65536); set_flight_desc("f32 block " + std::to_string(block)); f32_block(block, stride); if (H.sample_seen < 6) H.sample(J().str("case", "float32 bit patterns of block " + std::to_string(block)).done()); else ++H.sample_seen; }); }
     auto body = [&](long long c) {
         Rng r = H.case_rng(c);
         switch (c % 5) {
@@ -447,6 +448,7 @@ int main(int argc, char** argv) {
         case 3: set_flight_desc("literals"); dec_literals(r); break;
         default: set_flight_desc("bigints"); bigints(r); break;
         }
+        if (H.sample_seen < 10 || r.chance(1, 20000)) H.sample(J().str("case", g_desc).done()); else ++H.sample_seen;
     };
     return H.run(body);
 }
